@@ -34,6 +34,7 @@ func runC04(c *Ctx) {
 	c.Rule("C04.R6", "lookups write no router state", 3)
 	c.Rule("C04.R7", "a route is selected only if the common matchers and its own path predicate all hold; conjunction matchers are all-of", 6)
 	defer c04Matchers(c, "pkg/router")
+	defer c04EveryHeaderConditionEvaluated(c, "pkg/router")
 	c.Rule("C04.R10", "variable matchers combine as an or of and-groups (finite-domain fixed point against a reference monitor)", 1)
 	defer c04VariableLogic(c, "pkg/router")
 	c.Rule("C04.R9", "RPC routes evaluate all their configured headers on the header map (no diversion to HTTP request variables)", 1)
